@@ -174,6 +174,30 @@ def queuePush (q : EncodeQueue) (data : Option (List Byte)) : Res PushOut :=
       else .ok { q := { q with ring := { w.ring with len := len }, st := w.st }, ret := w.push, cons := w.cons }
     | .err e => .err e | .null => .null | .oob => .oob | .fault => .fault
 
+/-- `mpt_queue_push(qu, k, NULL)`: remove `k` messages, the one in progress counts as the first.  The return
+    value is the position of the finished data (not a consumed size); the data is made contiguous first so
+    that the encoder sees all finished frames.  Without encoder only open data can be dropped. -/
+def queueDel (q : EncodeQueue) (k : Nat) : Res PushOut :=
+  match q.codec with
+  | none =>
+    if q.st.scratch = 0 ∨ k > 1 then .ok { q := q, ret := Err.BadOperation.code }
+    else .ok { q := { q with ring := { q.ring with len := q.st.done }, st := { q.st with scratch := 0 } }, ret := 0 }
+  | some c =>
+    match (if q.ring.off ≠ 0 then q.ring.align 0 else .ok q.ring) with
+    | .ok r1 =>
+      match encodeDel c q.st r1.store k with
+      | .ok o =>
+        let len := o.st.done + o.st.scratch
+        if len > r1.max then .fault
+        else .ok { q := { q with ring := { r1 with len := len }, st := o.st }, ret := (o.ret : Nat) }
+      | .err e =>
+        let len := q.st.done + q.st.scratch
+        if len > r1.max then .fault
+        else .ok { q := { q with ring := { r1 with len := len } }, ret := e.code }
+      | .oob => .oob
+      | .unmodelled => .fault
+    | .err e => .err e | .null => .null | .oob => .oob | .fault => .fault
+
 /-- what `mpt_stream_flush` does with the first `n` finished bytes once they are written:
     `mpt_queue_crop(&data, 0, n); done -= n` (bytes handed out: the first `n` bytes of the content) -/
 def queueTake (q : EncodeQueue) (n : Nat) : Res (EncodeQueue × List Byte) :=
